@@ -354,9 +354,14 @@ class Ctx:
             json.dump({"Replace": rep}, f, indent=1)
         return p
 
-    def go_test(self, pkg, run, entries, env=None, timeout=3600, extra=()):
+    def go_test(self, pkg, run, entries, env=None, timeout=None, extra=()):
         """go test -tags verif -overlay ... -run <run> ./<pkg> inside /repo (its
-        current working tree).  Nothing is written to /repo."""
+        current working tree).  Nothing is written to /repo.  A harness that does not finish
+        (a change to /repo that makes it hang) is ended by go test's own -timeout (goroutine dump,
+        non-zero exit => obligation harness:run broken => VIOLATION): 20 min in the quick tier
+        (harness runs take 10-120 s there), 60 min in the thorough tier."""
+        if timeout is None:
+            timeout = 1200 if self.tier == "quick" else 3600
         ov = self.overlay(entries)
         e = {"VERIF_SEED": str(self.seed), "VERIF_TIER": self.tier}
         if env:
